@@ -614,14 +614,11 @@ func (c *rchk) msg(path string, mi *msgInfo, v *V, depth int) {
 				n = len(sv.L)
 			}
 			within := !isMsg || childOK
-			if c.ro.nel && within && depth <= rapidDepthLimit {
-				if c.exact && sv.K == 'l' && n == 0 {
-					key := "no-empty-lists"
-					if isAny2(fd) && len(c.ro.any) == 0 {
-						key = "no-empty-lists/any-without-types" // every element fails: the allocated list stays behind, empty
-					}
-					c.fail(key, p+": empty non-nil list although NoEmptyLists is set")
-				} else if n == 0 && (!isMsg || (c.ro.dn && (!isAny2(fd) || len(c.ro.any) > 0))) {
+			if c.ro.nel && c.exact && sv.K == 'l' && n == 0 {
+				// at any depth (9f5602c: a field none of whose requested elements survived is cleared)
+				c.fail("no-empty-lists", p+": empty non-nil list although NoEmptyLists is set")
+			} else if c.ro.nel && within && depth <= rapidDepthLimit {
+				if n == 0 && (!isMsg || (c.ro.dn && (!isAny2(fd) || len(c.ro.any) > 0))) {
 					c.fail("no-empty-lists", p+": the list is always generated here and NoEmptyLists is set, yet it is empty")
 				} else {
 					c.ok()
@@ -650,6 +647,24 @@ func (c *rchk) msg(path string, mi *msgInfo, v *V, depth int) {
 			c.scalar(p, fd, sv)
 		}
 	}
+}
+
+// nilEmpty renders empty lists and maps as nil, at every depth: "(l)" is reserved for an empty NON-NIL
+// list observed in a Go struct
+func nilEmpty(v *V) *V {
+	if v == nil {
+		return v
+	}
+	if (v.K == 'l' || v.K == 'p') && len(v.L) == 0 {
+		return vNil
+	}
+	for i, e := range v.L {
+		v.L[i] = nilEmpty(e)
+	}
+	if v.P != nil {
+		v.P = nilEmpty(v.P)
+	}
+	return v
 }
 
 func isAny2(fd protoreflect.FieldDescriptor) bool {
@@ -715,7 +730,7 @@ func (rc *rapidCtx) draw(mi *msgInfo, dyn bool, ro ropts, seed int) {
 	o.count("outcome_value")
 	var v *V
 	if dyn {
-		v = si.fromPR(mi, m.ProtoReflect())
+		v = nilEmpty(si.fromPR(mi, m.ProtoReflect())) // protoreflect cannot tell nil from empty: rendered as nil
 	} else {
 		v = si.fromGo(mi, reflect.ValueOf(m))
 	}
@@ -816,15 +831,59 @@ func engineRapid(cfg config, o *out) {
 	all = append(all, buildDynSchema())
 	o.hist["programs"] = len(all)
 	budget := 6e4
-	seeds := 2
+	seeds := 3
 	if cfg.thorough() {
-		budget, seeds = 6e5, 24
+		budget, seeds = 1.5e5, 16
 	}
 	r := newRng(cfg.seed, "rapid")
 	for _, rs := range all {
+		o.raw("SCHEMA\t" + rs.si.id + "\t=\t" + rs.si.sexp())
+		o.kase("@RSCHEMA", []string{rs.si.id, rs.rsexp()}, "ok") // context line: every driver shard reads it
+	}
+	// regression draws: the inputs on which the defects repaired by /repo's fix: commits were first seen
+	// (fixed rapid seeds, whatever VERIF_SEED is)
+	regress := []struct {
+		sid, msg string
+		dyn      bool
+		ro       ropts
+		withAny  bool
+		seeds    []int
+	}{
+		{"vw", "google.protobuf.FieldMask", false, ropts{}, false, []int{0, 1, 2, 3}},                              // fcde2e4 paths dropped
+		{"test3", "goproto.proto.test3.TestAllTypes", false, ropts{}, false, []int{0, 1, 2}},                       // 1730a5e enum index; 0c6fe98 leftovers at depth 11
+		{"vw", "google.protobuf.Any", false, ropts{}, true, []int{1, 2, 3}},                                        // 3227b11 nil field
+		{"vw", "vw.Wk", false, ropts{}, false, []int{0, 1, 2, 3}},                                                  // a592b3e empty Any elements
+		{"vw", "vw.Wk", false, ropts{dn: true}, true, []int{160008637, 401733545}},                                 // 0c6fe98 Any leftovers at the limit
+		{"vw", "vw.Wk", false, ropts{nel: true}, false, []int{528897537, 992588847, 1068907953, 364940035, 3729025}}, // 9f5602c empty non-nil list
+		{"testpb", "CounterQueryRequest", false, ropts{}, false, []int{0, 1}},                                     // 402bd9f nothing to draw
+		{"vw", "google.protobuf.Any", true, ropts{}, false, []int{0, 1}},                                           // 402bd9f
+	}
+	for _, rg := range regress {
+		for _, rs := range all {
+			if rs.si.id != rg.sid {
+				continue
+			}
+			mi := rs.si.byName[protoreflect.FullName(rg.msg)]
+			if mi == nil {
+				panic("regression case: no message " + rg.msg + " in " + rg.sid)
+			}
+			ro := rg.ro
+			if rg.withAny {
+				// the well-known leaf types and the type that holds Any fields, as in the sweep
+				for _, m := range rs.si.msgs {
+					if t := wktTag(m.md); t == "ts" || t == "dur" || t == "fm" || m.md.FullName() == "vw.Wk" {
+						ro.any = append(ro.any, m.idx)
+					}
+				}
+			}
+			for _, sd := range rg.seeds {
+				o.count("regression_draws")
+				(&rapidCtx{cfg: cfg, o: o, rs: rs}).draw(mi, rg.dyn, ro, sd)
+			}
+		}
+	}
+	for _, rs := range all {
 		si := rs.si
-		o.raw("SCHEMA\t" + si.id + "\t=\t" + si.sexp())
-		o.kase("@RSCHEMA", []string{si.id, rs.rsexp()}, "ok") // context line: every driver shard reads it
 		// Any payload types: the cheapest few message types of the schema, Any itself, and one type that
 		// holds Any fields
 		type cand struct {
